@@ -1889,6 +1889,8 @@ func mayAlias(v ssa.Value, isSource func(ssa.Value) bool, seen map[ssa.Value]boo
 			}
 			return mayAlias(x.X, isSource, seen)
 		}
+	case *ssa.FreeVar:
+		return isSource(x)
 	case *ssa.IndexAddr:
 		return mayAlias(x.X, isSource, seen)
 	case *ssa.FieldAddr:
@@ -1906,6 +1908,10 @@ func sourcePred(atoms []string) func(ssa.Value) bool {
 			switch {
 			case strings.HasPrefix(a, "param:"):
 				if p, ok := v.(*ssa.Parameter); ok && p.Name() == a[6:] {
+					return true
+				}
+			case strings.HasPrefix(a, "freevar:"):
+				if fv, ok := v.(*ssa.FreeVar); ok && (a == "freevar:*" || fv.Name() == a[8:]) {
 					return true
 				}
 			case strings.HasPrefix(a, "field:"):
